@@ -474,6 +474,160 @@ func lzwBoundaryInputs(rnd interface{ UintN(uint) uint }, quick bool) [][]byte {
 	return res
 }
 
+// ---------------------------------------------------------------- LZW: maximal code expansion
+
+// A degenerate input: q incompressible bytes (each uses up one table entry), then a pattern of the
+// given period repeated up to n bytes in all.  With period 1 the table strings grow 1, 2, 3, ... bytes, so the
+// k-th code expands to about k bytes: expansions of more than 2048 bytes need over 2 MB of input, the longest
+// possible one (maxCode-256 = 3839 bytes, table full) 7.4 MB; with period p it takes about 1/p of that to fill
+// the table and the strings reach 1/p of the length.  This is the only way to make the reader stage long
+// expansions at the end of its output buffer while many decoded bytes are still pending at its start.
+type degenerate struct {
+	q, period, n int
+	b            byte
+}
+
+func (d degenerate) String() string {
+	return fmt.Sprintf("%d incompressible bytes, then period-%d pattern from byte 0x%02x up to %d bytes", d.q, d.period, d.b, d.n)
+}
+
+func (d degenerate) data() []byte {
+	out := make([]byte, d.n)
+	// a fixed pseudo-random sequence: hardly any byte pair occurs twice
+	x := uint32(12345)
+	for i := 0; i < min(d.q, d.n); i++ {
+		x = x*1664525 + 1013904223
+		out[i] = byte(x >> 24)
+	}
+	for i := d.q; i < d.n; i++ {
+		out[i] = d.b + byte((i-d.q)%d.period)
+	}
+	return out
+}
+
+func tri(k int) int { return k * (k + 1) / 2 }
+
+// lzwDegenerateInputs: sizes where the longest table string crosses 2048 / 3072 / the table-full length, ends of
+// data just before and after the table-full clear, and more than one table generation.
+func lzwDegenerateInputs(quick bool) []degenerate {
+	res := []degenerate{
+		{0, 1, tri(2048) + 7, 0},
+		{0, 1, tri(3072) + 1, 0xff},
+		{0, 1, tri(3838) - 1, 0},
+		{0, 1, tri(3838) + 5000, 0x41},
+		{0, 1, 8400000, 0},
+		{0, 2, 4100000, 0x20},
+		{1500, 1, tri(2340) + 99, 0},
+	}
+	if !quick {
+		for _, k := range []int{2040, 2047, 2049, 2050, 2304, 2560, 3071, 3073, 3500, 3837, 3838, 3839} {
+			res = append(res, degenerate{0, 1, tri(k) + k/2, byte(k)})
+		}
+		for _, p := range []int{2, 3, 4, 7, 16} {
+			res = append(res, degenerate{0, p, tri(3838)/p + 300000, 0x30}, degenerate{0, p, 2 * tri(3838) / p, 0x80})
+		}
+		for _, q := range []int{1, 2, 255, 256, 700, 1790, 2500, 3000} {
+			res = append(res, degenerate{q, 1, tri(3838-q) + 123456, 0x11}, degenerate{q, 2, tri(3838-q)/2 + 99999, 0x55})
+		}
+		res = append(res, degenerate{0, 1, 16 << 20, 0}, degenerate{0, 1, 3*tri(3838) + 17, 0xfe})
+	}
+	return res
+}
+
+func fnv64(b []byte) uint64 {
+	h := uint64(0xcbf29ce484222325)
+	for _, x := range b {
+		h = (h ^ uint64(x)) * 0x100000001b3
+	}
+	return h
+}
+
+func firstDiff(a, b []byte) int {
+	n := min(len(a), len(b))
+	for i := 0; i < n; i++ {
+		if a[i] != b[i] {
+			return i
+		}
+	}
+	return n
+}
+
+func (h *H) lzwDegenerate() {
+	e := h.e
+	for i, d := range lzwDegenerateInputs(!e.Thorough) {
+		data := d.data()
+		for _, early := range []bool{false, true} {
+			name := "lzw0"
+			if early {
+				name = "lzw1"
+			}
+			f := pdf.FilterLZW{OffByOne: early}
+			enc, err := h.implEncode(f, pdf.V1_7, data, false)
+			if err != nil {
+				h.fail("rt-"+name+"-degenerate", "Encode/Close failed: "+err.Error(), map[string]any{"codec": name, "input": d.String()})
+				continue
+			}
+			// read in one piece, in blocks of a size that does not divide the reader's buffer, and with the random cut
+			for mode := 0; mode < 3; mode++ {
+				var dec []byte
+				var err error
+				switch mode {
+				case 0:
+					dec, err = h.implDecode(f, pdf.V1_7, enc, false)
+				case 1:
+					dec, err = func() (out []byte, err error) {
+						defer func() {
+							if r := recover(); r != nil {
+								err = fmt.Errorf("panic: %v", r)
+							}
+						}()
+						rd, err := f.Decode(pdf.V1_7, bytes.NewReader(enc), membudget.New(1<<30))
+						if err != nil {
+							return nil, err
+						}
+						defer rd.Close()
+						buf := make([]byte, 4093)
+						for {
+							n, err := rd.Read(buf)
+							out = append(out, buf[:n]...)
+							if err == io.EOF {
+								return out, nil
+							}
+							if err != nil {
+								return out, err
+							}
+						}
+					}()
+				default:
+					if len(data) > 3<<20 && !e.Thorough {
+						continue
+					}
+					dec, err = h.implDecode(f, pdf.V1_7, enc, true)
+				}
+				ok := err == nil && bytes.Equal(dec, data)
+				if !ok {
+					what := fmt.Sprintf("%s: decode(encode(x)) != x for x = %s (encoded %d bytes; got %d bytes, first difference at offset %d, err=%v, read mode %d)",
+						name, d.String(), len(enc), len(dec), firstDiff(dec, data), err, mode)
+					h.fail("rt-"+name+"-degenerate", what, map[string]any{"codec": name, "incompressible_prefix": d.q, "period": d.period,
+						"first_byte": int(d.b), "length": d.n, "read_mode": mode, "encoded": common.Hex(enc[:min(len(enc), 64)]) + "..."})
+				}
+				e.Count(true, fmt.Sprintf("degenerate %s %v %d", name, d, mode), "rt-degenerate:"+name)
+			}
+			// the model decodes the implementation's code stream (digest only), with the staging buffer alongside
+			if (early && i == 4) || (!early && i == 6) || (e.Thorough && i%3 == 0 && d.n <= 9<<20) {
+				dec, err := h.implDecode(f, pdf.V1_7, enc, false)
+				id := h.id("s")
+				e.Line("cases.txt", "%s S %s %s", id, name, common.Hex(enc))
+				if err != nil {
+					e.Line("impl.obs", "%s stage 1 err", id)
+				} else {
+					e.Line("impl.obs", "%s stage 1 okh %d %016x", id, len(dec), fnv64(dec))
+				}
+			}
+		}
+	}
+}
+
 // ---------------------------------------------------------------- predictors (package predict)
 
 type geom struct{ colors, bpc, columns int }
@@ -1450,6 +1604,7 @@ func main() {
 	e := common.New(0xC06)
 	h := &H{e: e}
 	h.simpleCodecs()
+	h.lzwDegenerate()
 	h.predictors()
 	h.flateParams()
 	h.ccittParams()
